@@ -35,7 +35,7 @@ type Config struct {
 }
 
 var defaultNoInit = []string{
-	"os", "syscall", "runtime", "time", "fmt", "reflect", "log", "net", "crypto/", "internal/", "io", "bufio", "path",
+	"os", "syscall", "runtime", "time", "fmt", "reflect", "log", "net", "crypto/", "internal/", "io/", "bufio", "path",
 	"regexp", "encoding/json", "encoding/base64", "encoding/hex", "testing", "flag", "sync", "context", "text/",
 	"compress/", "hash/", "golang.org/x/", "github.com/gnolang/gno/tm2/pkg/amino", "github.com/gnolang/gno/tm2/pkg/telemetry",
 	"github.com/gnolang/gno/tm2/pkg/log", "go.opentelemetry.io", "google.golang.org", "github.com/rs/", "go.uber.org",
@@ -292,6 +292,17 @@ type Violation struct {
 	Vector  map[string]string
 	Path    []int
 	Panic   string
+	Shape   string // the structural choices (verifChoose) of the path
+}
+
+func (p *pathState) shape() string {
+	var sb strings.Builder
+	for _, n := range p.nondets {
+		if n.Kind == "choose" {
+			sb.WriteString(n.Name + "=" + n.Val.String() + ";")
+		}
+	}
+	return sb.String()
 }
 
 type Inconclusive struct {
@@ -501,7 +512,7 @@ func (i *interp) verifAssert(cond *term.T, label string) {
 		if vec == nil {
 			p.h.noteInconclusive(fmt.Sprintf("assert %q: sat but no model", label))
 		} else {
-			p.h.noteViolation(&Violation{Harness: p.h.name, Label: label, Where: i.where(), Vector: vec, Path: append([]int(nil), p.trace...)})
+			p.h.noteViolation(&Violation{Harness: p.h.name, Label: label, Where: i.where(), Vector: vec, Path: append([]int(nil), p.trace...), Shape: p.shape()})
 		}
 	default:
 		msg := fmt.Sprintf("assert %q: solver answered unknown at %s", label, i.where())
